@@ -148,6 +148,9 @@ func (gme *GCPMultiEndpoint) pickConn(ctx context.Context) *grpc.ClientConn {
 }
 
 func (gme *GCPMultiEndpoint) Close() error {
+	// pools is replaced by UpdateMultiEndpoints.
+	gme.mu.Lock()
+	defer gme.mu.Unlock()
 	var errs multiError
 	for e, mc := range gme.pools {
 		mc.stopMonitoring()
